@@ -122,3 +122,112 @@ Proof.
   simpl. unfold run_pass at 1, prepare. rewrite Hl, Hc. simpl. f_equal.
   apply IH; [exact Hc|exact Hl].
 Qed.
+
+(* ---------------- round 5: targets ---------------- *)
+Lemma targets_invalid_fatal c : target_config_valid c = false -> exists step, run_cli_targets c = Fatal step.
+Proof.
+  unfold target_config_valid, cli_valid, run_cli_targets, target_steps. destruct c as [[p l g s e] y]; simpl.
+  destruct p, l, y, g, e, s; simpl; intros H; try discriminate; eexists; reflexivity.
+Qed.
+
+Lemma targets_valid_runs c : target_config_valid c = true -> run_cli_targets c = Ran.
+Proof.
+  unfold target_config_valid, cli_valid, run_cli_targets, target_steps. destruct c as [[p l g s e] y]; simpl.
+  destruct p, l, y, g, e, s; simpl; intros H; try discriminate; reflexivity.
+Qed.
+
+Lemma missing_target_is_load_error c :
+  args_parse_ok (tc_base c) = true -> load_ok (tc_base c) = true -> tc_all_targets_yield c = false ->
+  run_cli_targets c = Fatal "load program".
+Proof.
+  unfold run_cli_targets, target_steps. intros Hp Hl Hy. rewrite Hp, Hl, Hy. reflexivity.
+Qed.
+
+Lemma missing_target_prefix_refuted :
+  exists c, target_config_valid c = false /\ run_cli_targets_prefix c = Ran.
+Proof.
+  exists {| tc_base := {| args_parse_ok := true; load_ok := true; go_version_ok := true; selection_nonempty := true; first_ctor_error := false |};
+            tc_all_targets_yield := false |}.
+  vm_compute. auto.
+Qed.
+
+(* ---------------- round 5: dispatcher ---------------- *)
+Lemma dispatch_cases argv :
+  (exists a, argv = "check" :: a /\ dispatch argv = DCheck a)
+  \/ (exists a, argv = "doc" :: a /\ dispatch argv = DDoc a)
+  \/ (exists a, argv = "help" :: a /\ dispatch argv = DHelp)
+  \/ (exists a, argv = "version" :: a /\ dispatch argv = DVersion)
+  \/ ((argv = [] \/ exists c r, argv = c :: r /\ ~ In c subcommands) /\ exists m, dispatch argv = DError m).
+Proof.
+  destruct argv as [|c r].
+  - right; right; right; right. split; [left; reflexivity|eexists; reflexivity].
+  - unfold dispatch.
+    destruct (String.eqb c "") eqn:E0.
+    { apply String.eqb_eq in E0; subst. right; right; right; right. split; [|eexists; reflexivity].
+      right. exists "", r. split; [reflexivity|]. simpl. intros [H|[H|[H|[H|[]]]]]; discriminate. }
+    destruct (String.eqb c "check") eqn:E1; [apply String.eqb_eq in E1; subst; left; eexists; split; reflexivity|].
+    destruct (String.eqb c "doc") eqn:E2; [apply String.eqb_eq in E2; subst; right; left; eexists; split; reflexivity|].
+    destruct (String.eqb c "help") eqn:E3; [apply String.eqb_eq in E3; subst; right; right; left; eexists; split; reflexivity|].
+    destruct (String.eqb c "version") eqn:E4; [apply String.eqb_eq in E4; subst; right; right; right; left; eexists; split; reflexivity|].
+    right; right; right; right. split; [|eexists; reflexivity].
+    right. exists c, r. split; [reflexivity|].
+    apply String.eqb_neq in E1, E2, E3, E4. simpl. intros [H|[H|[H|[H|[]]]]]; congruence.
+Qed.
+
+Lemma unknown_subcommand_fails known cs argv :
+  (argv = [] \/ exists c r, argv = c :: r /\ ~ In c subcommands) -> main_status known cs argv = 1%Z.
+Proof.
+  intros [->|[c [r [-> Hn]]]]; [reflexivity|].
+  unfold main_status, dispatch.
+  destruct (String.eqb c "") eqn:E0; [reflexivity|].
+  destruct (String.eqb c "check") eqn:E1; [apply String.eqb_eq in E1; subst; exfalso; apply Hn; simpl; auto|].
+  destruct (String.eqb c "doc") eqn:E2; [apply String.eqb_eq in E2; subst; exfalso; apply Hn; simpl; auto|].
+  destruct (String.eqb c "help") eqn:E3; [apply String.eqb_eq in E3; subst; exfalso; apply Hn; simpl; auto|].
+  destruct (String.eqb c "version") eqn:E4; [apply String.eqb_eq in E4; subst; exfalso; apply Hn; simpl; auto 6|].
+  reflexivity.
+Qed.
+
+(* the runner alone ran check for the empty word *)
+Lemma empty_word_prefix_runs_check known cs r : main_status_empty_word_prefix known cs ("" :: r) = cs r.
+Proof. reflexivity. Qed.
+Lemma empty_word_prefix_refuted :
+  exists known cs argv, (exists c r, argv = c :: r /\ ~ In c subcommands) /\ main_status_empty_word_prefix known cs argv = 0%Z.
+Proof.
+  exists (fun _ => true), (fun _ => 0%Z), [""]. split; [|reflexivity].
+  exists "", []. split; [reflexivity|]. simpl. intros [H|[H|[H|[H|[]]]]]; discriminate.
+Qed.
+
+Lemma status_zero_known_subcommand known cs argv :
+  main_status known cs argv = 0%Z -> exists c r, argv = c :: r /\ In c subcommands.
+Proof.
+  intros H. destruct (dispatch_cases argv) as [[a [-> _]]|[[a [-> _]]|[[a [-> _]]|[[a [-> _]]|[Hu _]]]]].
+  - eexists _, _; split; [reflexivity|simpl; auto].
+  - eexists _, _; split; [reflexivity|simpl; auto].
+  - eexists _, _; split; [reflexivity|simpl; auto].
+  - eexists _, _; split; [reflexivity|simpl; auto 6].
+  - rewrite (unknown_subcommand_fails known cs argv Hu) in H. discriminate.
+Qed.
+
+Lemma doc_unknown_checker_fails known cs n :
+  known n = false -> has_prefix "-" n = false -> main_status known cs ["doc"; n] = 1%Z.
+Proof.
+  intros Hk Hp. unfold main_status. change (dispatch ["doc"; n]) with (DDoc [n]). unfold doc_status, doc_parse.
+  destruct (String.eqb n "--") eqn:E; [apply String.eqb_eq in E; subst; discriminate|].
+  rewrite Hp. cbn. rewrite Hk. reflexivity.
+Qed.
+
+Lemma doc_status_zero known args :
+  doc_status known args = 0%Z ->
+  exists pos, doc_parse args = Some pos /\ (pos = [] \/ exists n, pos = [n] /\ known n = true).
+Proof.
+  unfold doc_status. destruct (doc_parse args) as [[|n [|m r]]|]; intros H; try discriminate.
+  - exists []. auto.
+  - exists [n]. split; [reflexivity|]. right. exists n. split; [reflexivity|]. destruct (known n); [reflexivity|discriminate].
+Qed.
+
+Lemma main_status_prefix_refuted :
+  exists known cs argv, (exists c r, argv = c :: r /\ ~ In c subcommands) /\ main_status_prefix known cs argv = 0%Z.
+Proof.
+  exists (fun _ => true), (fun _ => 1%Z), ["chek"; "./p"]. split; [|reflexivity].
+  exists "chek", ["./p"]. split; [reflexivity|]. simpl. intros [H|[H|[H|[H|[]]]]]; discriminate.
+Qed.
